@@ -43,7 +43,7 @@ fn run_ext<B: Fld, E: FieldElement<BaseField = B>, H: ElementHasher<BaseField = 
     let air = match kit::pan::catch(|| SpecAir::<B>::new(trace.info.clone(), pubs.clone(), st.opts.to_options())) {
         Ok(a) => a,
         Err(_) => {
-            out.class("filtered: description refused by the AIR constructor");
+            out.class(if spec.exemptions_exceed_degree_budget() { "filtered: exemptions exceed the degree budget (documented refusal)" } else { "skipped: description refused by the AIR constructor (reported by C01)" });
             return;
         },
     };
@@ -165,6 +165,7 @@ fn run_ext<B: Fld, E: FieldElement<BaseField = B>, H: ElementHasher<BaseField = 
             if nr >= 2 {
                 inc = ctx.add(&inc, &ctx.mul(&rands[(j + 1) % nr], ml));
             }
+            let inc = ctx.pow(&inc, spec.aux_pow.max(1) as u128);
             let ev = ctx.sub(&ctx.sub(&anxt[j], &acur[j]), &inc);
             num = ctx.add(&num, &ctx.mul(&ct[spec.width() + j], &ev));
         }
